@@ -34,6 +34,15 @@ for _pid, _title, _text in [
 ]:
     PROPS[_pid] = {"units": ["parse"], "kani": [], "replay": [], "title": _title, "level": "proof", "level_text": _text, "level_note": _PARSE_NOTE, "design_ref": "DESIGN.md §6.1"}
 
+PROPS["C02"]["units"] = ["parse", "index", "object"]
+PROPS["C02"]["level_note"] = _PARSE_NOTE + " Key lookups: Object queries proved equal to a linear scan over the entries (unit object) under the assumed IndexMap contract; Indexes proved (unit index)."
+PROPS["C14"] = {
+    "units": ["object"], "kani": [], "replay": [], "title": "Equality, ordering and hashing depend only on content", "level": "proof",
+    "level_text": "Frame contracts: Object's PartialEq/PartialOrd/Ord/Hash results are functions of the two entry sequences only (they delegate to Vec<Entry>), for every object and every state of the key index; together with C06 (the entry sequence is determined by the list model, not by the history) this gives history independence.",
+    "level_note": "assumed: Vec<Entry>'s Eq/Ord/Hash are functions of the element sequence; lawfulness (total order consistent with equality) of the derived Ord/Eq of Value/Entry and of NumberBuf/SmallString orders is compiler/dependency behaviour and is not decided here",
+    "design_ref": "DESIGN.md §6.6",
+}
+
 NOT_APPLICABLE = {
     "C16": "serde Serializer/Deserializer plumbing: every deciding fact (derive expansion, number formatting, serde_json's shape) lives in dependencies whose behaviour would be assumed; no contract within reach decides it (DESIGN.md §7)",
     "C17": "same as C16: the deciding case analysis is inside json-number's Serialize/Deserialize; the in-repo ingredient (duplicate keys collapse through Object::insert) is covered by C06 (DESIGN.md §7)",
